@@ -643,6 +643,11 @@ where
         self.base.inner.verif_sketch()
     }
 
+    /// The length of the live frequency sketch's table, without copying it.
+    pub fn verif_sketch_table_len(&self) -> usize {
+        self.base.inner.verif_sketch_table_len()
+    }
+
     /// Takes a snapshot of the internal data structures and walks the deques.
     /// Locks the deques mutex (blocks while a maintenance task is running).
     pub fn verif_snapshot(
